@@ -134,7 +134,7 @@ class C03(HistoryCheck):
     PROP = "C03"
     LEVEL = "exploration"
     RUNS = {"quick": 1500, "thorough": 30000}
-    PROFILE = {"allow_frozen": False, "allow_class_dnc": False}
+    PROFILE = {"allow_frozen": False, "allow_class_dnc": False, "allow_bad_defaults": True}
     OPGEN = {"p_bad": 0.45, "p_inplace": 0.5, "p_nested_target": 0.2,
              "weights": {"new": 3, "scalar": 7, "element": 10, "toplevel": 4, "set": 4, "del": 1, "get": 0.3,
                          "deepcopy": 0.3, "nested": 2}}
